@@ -29,19 +29,18 @@ theorem nameWith_inv (hP : DocInv P) (fc : Facts) (x : Ext) (o : Opts) (st : St)
   obtain ⟨mangled, _, h⟩ := bind_eq_ok.1 h
   obtain ⟨⟨newName, isOAIGen⟩, _, h⟩ := bind_eq_ok.1 h
   obtain ⟨ref, _, h⟩ := bind_eq_ok.1 h
-  obtain ⟨d1, h1, h⟩ := bind_eq_ok.1 h
+  obtain ⟨d0, h1, h⟩ := bind_eq_ok.1 h
   obtain ⟨d2, h2, h⟩ := bind_eq_ok.1 h
   simp only [pure_eq_ok] at h
   subst h
-  have hp1 : P d1 := hP.rewrite _ _ _ _ h1 hp
-  have hp2 : P d2 := by
-    refine foldlM_inv P _ ?_ _ d1 d2 hp1 h2
-    intro d kv d' hd hstep
-    obtain ⟨r, _, hstep⟩ := bind_eq_ok.1 hstep
-    split at hstep
-    · simp only [pure_eq_ok] at hstep; exact hstep ▸ hd
-    · exact hP.updateRef _ _ _ _ hstep hd
-  exact hP.setDefs _ _ hp2
+  have hp1 : P (save d0 newName (schema.set "x-go-gen-location" (.str (genLocation parts)))) :=
+    hP.setDefs _ _ (hP.rewrite _ _ _ _ h1 hp)
+  refine foldlM_inv P _ ?_ _ _ d2 hp1 h2
+  intro d kv d' hd hstep
+  obtain ⟨r, _, hstep⟩ := bind_eq_ok.1 hstep
+  split at hstep
+  · simp only [pure_eq_ok] at hstep; exact hstep ▸ hd
+  · exact hP.updateRef _ _ _ _ hstep hd
 
 theorem nameSchema_inv (hP : DocInv P) (fc : Facts) (x : Ext) (o : Opts) (ops : List (String × OpRef)) (st : St)
     (key : String) (schema : J) (fl : Classify.Flags) (st' : St)
@@ -131,7 +130,13 @@ theorem stripOAIGenForRef_inv (hP : DocInv P) (fc : Facts) (x : Ext) (st : St) (
       intro acc p acc' ha hstep
       obtain ⟨d, hd, hstep⟩ := bind_eq_ok.1 hstep
       simp only [pure_eq_ok] at hstep; subst hstep
-      exact hP.updateRef _ _ _ _ hd ha
+      have hd' : P d := hP.updateRef _ _ _ _ hd ha
+      show P (if _ then _ else _)
+      split
+      · split
+        · rename_i d' hu; exact hP.updateRef _ _ _ _ hu hd'
+        · exact hd'
+      · exact hd'
     simp only at h
     obtain ⟨rep3, _, h⟩ := bind_eq_ok.1 h
     simp only [pure_eq_ok] at h; subst h
